@@ -166,6 +166,8 @@ def parseSeriesId (s : String) : Option (Bytes × Tags) :=
   | _ => none
 
 def renderSeries (l : List Series) : String :=
+  -- a listed series without a remaining value is not part of a read
+  let l := l.filter fun s => !s.pts.isEmpty
   if l.isEmpty then "-" else
   ";".intercalate (l.map fun s =>
     seriesId s.name s.tags ++ "=" ++ ",".intercalate (s.pts.map fun p => toString p.1 ++ ":" ++ toString p.2))
@@ -191,7 +193,7 @@ def stepOp (st : Option State) (op : Op) : Option State × String :=
   | none, _ => (none, "bad-op")
   | some s, .write sh name tags pts =>
     if s.any (·.id = sh) then (some (write s sh name tags pts), "ok") else (some s, "bad-op")
-  | some s, .snap sh => if s.any (·.id = sh) then (some s, "ok") else (some s, "bad-op")
+  | some s, .snap sh => if s.any (·.id = sh) then (some (snapshot s sh), "ok") else (some s, "bad-op")
   | some s, .del lo hi pred hm => (some (delete s lo hi pred hm), "ok")
   | some s, .read sh =>
     match readShard s sh with
